@@ -462,13 +462,13 @@ Proof.
   { etransitivity; [apply range_perm; assumption|apply Permutation_sym, range_perm; [apply id_perm_oracle|assumption]]. }
   rewrite (forallb_perm has_key _ _ Hp).
   destruct (forallb has_key (range ido (wa_endpoints w))); [|reflexivity].
-  rewrite (map_ext_in _ (fun kv => (opk (w_key (snd kv)), export_operation tb ido (snd kv))) (range o (wa_endpoints w))).
-  2:{ intros kv Hin. destruct (Hew kv (range_sub _ _ _ Hin)) as [Hp1 Hr1]. rewrite (export_operation_oracle tb o Hs Ho); [reflexivity|assumption|assumption]. }
-  rewrite (mset_all_perm (map (fun kv : name*wendpoint => (opk (w_key (snd kv)), export_operation tb ido (snd kv))) (range o (wa_endpoints w)))
-                         (map (fun kv : name*wendpoint => (opk (w_key (snd kv)), export_operation tb ido (snd kv))) (range ido (wa_endpoints w))));
-    [reflexivity| |apply Permutation_map, Hp].
-  rewrite map_map. cbn [fst]. eapply Permutation_NoDup; [|exact Hok].
-  apply Permutation_sym, Permutation_map, range_perm; assumption.
+  do 2 f_equal.
+  transitivity (mset_all (map (fun kv : name*wendpoint => (opk (w_key (snd kv)), export_operation tb ido (snd kv))) (range o (wa_endpoints w))) []).
+  - f_equal. apply map_ext_in. intros kv Hin. destruct (Hew kv (range_sub _ _ _ Hin)) as [Hp1 Hr1].
+    rewrite (export_operation_oracle tb o Hs Ho); [reflexivity|assumption|assumption].
+  - apply mset_all_perm; [|apply Permutation_map, Hp].
+    rewrite map_map. cbn [fst]. eapply Permutation_NoDup; [|exact Hok].
+    apply Permutation_sym, Permutation_map, range_perm; assumption.
 Qed.
 
 (* HEADLINE: with the sorts in place the exported document does not depend on map iteration order *)
@@ -502,3 +502,330 @@ Proof.
   exists ido, (@rev N), witness_app. split; [apply id_perm_oracle|]. split; [apply rev_perm_oracle|]. split; [apply witness_wf|].
   vm_compute. discriminate.
 Qed.
+
+(* ------------------------------------------------------------------ completeness of a type's schema *)
+Local Open Scope string_scope.
+
+Definition sty_opt (t:sty) : bool :=
+  match t with
+  | SNoType o | SPrim o _ | SEnum o _ | SSet o _ | SSeq o _ | SList o _ | SMap o _ _ | SRef o _ | STuple o _ _ => o
+  end.
+
+(* SPECIFICATION (independent of the code): the JSON type and format an OpenAPI 3 document shows for a Sysl primitive *)
+Definition prim_json (p:string) : option (string*string) :=
+  if String.eqb p "int" then Some ("integer", "int64")
+  else if String.eqb p "string" then Some ("string", "")
+  else if String.eqb p "string_8" then Some ("string", "")
+  else if String.eqb p "bool" then Some ("boolean", "")
+  else if String.eqb p "float" then Some ("number", "float")
+  else if String.eqb p "decimal" then Some ("number", "double")
+  else if String.eqb p "date" then Some ("string", "date")
+  else if String.eqb p "datetime" then Some ("string", "date-time")
+  else if String.eqb p "bytes" then Some ("string", "byte")
+  else if String.eqb p "uuid" then Some ("string", "uuid")
+  else None.
+
+(* SPECIFICATION: schema s presents type t - kind, array-ness with items whatever the optionality, reference target,
+   every field a property and no other, required = exactly the non-optional fields.  Types outside the exportable
+   subset (no type, map, json_map_key tuples, primitives without an OpenAPI counterpart) are not constrained. *)
+Fixpoint presents (t:sty) (s:schema) {struct t} : Prop :=
+  match t with
+  | SPrim _ p => match prim_json p with Some tf => s_ref s = 0%N /\ s_ty s = fst tf /\ s_fmt s = snd tf | None => True end
+  | SEnum _ items => s_ref s = 0%N /\ s_ty s = "string" /\ forall n, In n (s_enum s) <-> In n (map fst items)
+  | SSet _ e | SSeq _ e | SList _ e => s_ref s = 0%N /\ s_ty s = "array" /\ exists i, s_items s = Some i /\ presents e i
+  | SRef _ r => s_ref s = snd (get_ref_details r)
+  | STuple _ false fields =>
+      s_ref s = 0%N /\ s_ty s = "object" /\
+      (fix each (l:list (name*sty)) : Prop :=
+         match l with
+         | [] => True
+         | kv :: t => (exists fs, mget (fst kv) (s_props s) = Some fs /\ presents (snd kv) fs) /\ each t
+         end) fields /\
+      (forall f, In f (map fst (s_props s)) -> In f (map fst fields)) /\
+      (forall f, In f (s_required s) <-> exists ft, In (f,ft) fields /\ sty_opt ft = false)
+  | _ => True
+  end.
+
+Lemma each_Forall : forall (s:schema) fields,
+  (fix each (l:list (name*sty)) : Prop :=
+     match l with
+     | [] => True
+     | kv :: t => (exists fs, mget (fst kv) (s_props s) = Some fs /\ presents (snd kv) fs) /\ each t
+     end) fields <->
+  Forall (fun kv => exists fs, mget (fst kv) (s_props s) = Some fs /\ presents (snd kv) fs) fields.
+Proof.
+  intros s. induction fields as [|kv t IH]; split; intro H.
+  - constructor.
+  - exact I.
+  - destruct H as [H1 H2]. constructor; [exact H1|apply IH, H2].
+  - inversion H as [|? ? H1 H2]; subst. split; [exact H1|apply IH, H2].
+Qed.
+
+Lemma mget_map {A B} (g:A -> B) : forall (l:list (N*A)) k,
+  mget k (map (fun kv => (fst kv, g (snd kv))) l) = option_map g (mget k l).
+Proof.
+  induction l as [|[a b] t IH]; intro k; cbn [map mget fst snd]; [reflexivity|].
+  destruct (N.eqb k a); [reflexivity|apply IH].
+Qed.
+
+Lemma mget_go_map {A B} (g:A -> B) : forall (l:list (N*A)) k, NoDup (map fst l) ->
+  mget k (mset_all (map (fun kv => (fst kv, g (snd kv))) l) []) = option_map g (mget k l).
+Proof. intros l k Hnd. rewrite mget_mset_all by (rewrite map_fst_map; exact Hnd). apply mget_map. Qed.
+
+Lemma range_ido {V} : forall (m:list (N*V)), NoDup (map fst m) -> range ido m = m.
+Proof. intros m H. unfold ido. apply range_id, H. Qed.
+
+Lemma tup_fields_eq : forall o l, tup_fields o l = map (fun kv => (fst kv, map_type o (snd kv))) l.
+Proof. intros. unfold tup_fields. apply map_ext. intros [k v]. reflexivity. Qed.
+
+Lemma prop_entries_eq : forall tb o l, prop_entries tb o l = map (fun kv => (fst kv, (fun v => (w_opt v, export_type tb o v)) (snd kv))) l.
+Proof. intros. unfold prop_entries. apply map_ext. intros [k v]. reflexivity. Qed.
+
+Lemma w_opt_map_type : forall o t, w_opt (map_type o t) = sty_opt t.
+Proof. intros o []; reflexivity. Qed.
+
+Lemma mget_Some_iff_In {V} : forall (l:list (N*V)) k v, NoDup (map fst l) -> (mget k l = Some v <-> In (k,v) l).
+Proof. intros l k v Hnd. split; [apply mget_In|apply mget_of_In, Hnd]. Qed.
+
+(* the tuple arm, with the identity oracle *)
+Lemma tuple_schema : forall op fields, NoDup (map fst fields) ->
+  let s := export_type fixed3 ido (map_type ido (STuple op false fields)) in
+  s_ref s = 0%N /\ s_ty s = "object" /\
+  (forall f, mget f (s_props s) = option_map (fun ft => export_type fixed3 ido (map_type ido ft)) (mget f fields)) /\
+  (forall f, In f (s_required s) <-> exists ft, In (f,ft) fields /\ sty_opt ft = false).
+Proof.
+  intros op fields Hnd s. subst s. cbn [map_type].
+  change (map (fun kv : name*sty => let (k,v) := kv in (k, map_type ido v)) fields) with (tup_fields ido fields).
+  rewrite range_ido by (rewrite tup_fields_keys; exact Hnd).
+  set (W := mset_all (tup_fields ido fields) []).
+  assert (HW : forall f, mget f W = option_map (map_type ido) (mget f fields)).
+  { intro f. unfold W. rewrite tup_fields_eq. apply mget_go_map, Hnd. }
+  assert (HWk : NoDup (map fst W)) by apply mset_all_keys_NoDup.
+  cbn [export_type fixed3 tables_with t_arms arms_with app find_str String.eqb Ascii.eqb Bool.eqb a_extra a_ctor a_format A ctor_base fst snd].
+  change (map (fun kv : name*wtype => let (k,v) := kv in (k, (w_opt v, export_type (tables_with true true true) ido v))) W)
+    with (prop_entries fixed3 ido W).
+  set (PS := prop_entries fixed3 ido W).
+  assert (HPSk : NoDup (map fst PS)) by (unfold PS; rewrite prop_entries_keys; exact HWk).
+  assert (HPS : forall f, mget f PS = option_map (fun v => (w_opt v, export_type fixed3 ido v)) (mget f W)).
+  { intro f. unfold PS. rewrite prop_entries_eq. apply (mget_map (fun v : wtype => (w_opt v, export_type fixed3 ido v))). }
+  rewrite range_ido by exact HPSk.
+  cbn [s_ref s_ty s_props s_required].
+  change (map (fun kv : name*wtype => let (k, v) := kv in (k, (w_opt v, export_type fixed3 ido v))) W) with PS.
+  repeat split.
+  - intro f. rewrite (mget_go_map (fun x : bool*schema => snd x) PS f HPSk). rewrite HPS, HW.
+    destruct (mget f fields); reflexivity.
+  - intro Hin. apply (proj1 (nsort_In _ _)) in Hin. apply in_map_iff in Hin. destruct Hin as [[k [b sc]] [<- Hin]].
+    apply filter_In in Hin. destruct Hin as [Hin Hb]. cbn [fst snd req_applies] in *.
+    apply (mget_Some_iff_In PS _ _ HPSk) in Hin. rewrite HPS, HW in Hin.
+    destruct (mget k fields) as [ft|] eqn:E; [|discriminate]. cbn [option_map] in Hin. inversion Hin; subst.
+    exists ft. split; [apply mget_In, E|]. rewrite w_opt_map_type in Hb. destruct (sty_opt ft); [discriminate|reflexivity].
+  - intros [ft [Hin Ho]]. apply (proj2 (nsort_In _ _)). apply in_map_iff.
+    exists (f, (sty_opt ft, export_type fixed3 ido (map_type ido ft))). split; [reflexivity|].
+    apply filter_In. split.
+    + apply (mget_Some_iff_In PS _ _ HPSk). rewrite HPS, HW. rewrite (mget_of_In fields f ft Hnd Hin). cbn [option_map].
+      rewrite w_opt_map_type. reflexivity.
+    + cbn [fst snd req_applies]. rewrite Ho. reflexivity.
+Qed.
+
+Lemma presents_ido : forall t, wf_sty t -> presents t (export_type fixed3 ido (map_type ido t)).
+Proof.
+  induction t as [| op p| op items|op e IH|op e IH|op e IH|op k v IHk IHv| |op mk fields IH] using sty_ind';
+    intro Hwf; try exact I.
+  - (* primitive *)
+    cbn [presents map_type]. unfold prim_json.
+    repeat match goal with |- context [String.eqb p ?c] => destruct (String.eqb_spec p c) as [->|?]; [vm_compute; repeat split|] end.
+    exact I.
+  - (* enum *)
+    destruct Hwf as [Hk Hv]. cbn [presents map_type].
+    rewrite (range_ido items Hk).
+    set (E := mset_all (map (fun kv : name*N => (snd kv, fst kv)) items) []).
+    assert (HEp : Permutation E (map (fun kv : name*N => (snd kv, fst kv)) items)).
+    { apply mset_all_Permutation. rewrite map_map. cbn [fst]. exact Hv. }
+    assert (HEk : NoDup (map fst E)) by apply mset_all_keys_NoDup.
+    cbn [export_type fixed3 tables_with t_arms arms_with app find_str String.eqb Ascii.eqb Bool.eqb a_extra a_ctor a_format A ctor_base fst snd
+         s_ref s_ty s_enum].
+    repeat split.
+    + unfold convert_enum. cbn [t_enum_loop fixed3 tables_with loop_entries]. rewrite range_ido by exact HEk. intro Hin.
+      apply in_map_iff in Hin. destruct Hin as [[k n'] [<- Hin]]. apply entries_at_sub in Hin.
+      apply (Permutation_in _ HEp) in Hin. apply in_map_iff in Hin. destruct Hin as [[n0 v0] [Eq Hin]]. cbn [fst snd] in Eq. inversion Eq; subst.
+      apply in_map_iff. exists (n', k). split; [reflexivity|exact Hin].
+    + unfold convert_enum. cbn [t_enum_loop fixed3 tables_with loop_entries]. rewrite range_ido by exact HEk. intro Hin.
+      apply in_map_iff in Hin. destruct Hin as [[n0 v0] [<- Hin]]. cbn [fst].
+      assert (HinE : In (v0, n0) E).
+      { apply (Permutation_in _ (Permutation_sym HEp)). apply in_map_iff. exists (n0, v0). split; [reflexivity|exact Hin]. }
+      apply in_map_iff. exists (v0, n0). split; [reflexivity|].
+      assert (Hperm : Permutation (entries_at E (nsort (map fst E))) E).
+      { etransitivity; [apply entries_at_perm, Permutation_sym, nsort_perm_self|]. rewrite entries_at_self by exact HEk. apply Permutation_refl. }
+      apply (Permutation_in _ (Permutation_sym Hperm)). exact HinE.
+  - (* set *) cbn [presents map_type wf_sty] in *. vm_compute (find_str "set" (t_arms fixed3)).
+    cbn [export_type fixed3 tables_with t_arms arms_with app find_str String.eqb Ascii.eqb Bool.eqb a_extra a_ctor a_format A ctor_base fst snd s_ref s_ty s_items].
+    repeat split. eexists. split; [reflexivity|apply IH, Hwf].
+  - (* sequence *) cbn [presents map_type wf_sty] in *.
+    cbn [export_type fixed3 tables_with t_arms arms_with app find_str String.eqb Ascii.eqb Bool.eqb a_extra a_ctor a_format A ctor_base fst snd s_ref s_ty s_items].
+    repeat split. eexists. split; [reflexivity|apply IH, Hwf].
+  - (* list *) cbn [presents map_type wf_sty] in *.
+    cbn [export_type fixed3 tables_with t_arms arms_with app find_str String.eqb Ascii.eqb Bool.eqb a_extra a_ctor a_format A ctor_base fst snd s_ref s_ty s_items].
+    repeat split. eexists. split; [reflexivity|apply IH, Hwf].
+  - (* reference *) cbn [presents map_type]. reflexivity.
+  - (* tuple *)
+    destruct mk; [exact I|]. destruct Hwf as [Hnd Hall]. apply wf_fields_Forall in Hall.
+    destruct (tuple_schema op fields Hnd) as [H1 [H2 [H3 H4]]].
+    cbn [presents]. split; [exact H1|]. split; [exact H2|]. split; [|split; [|exact H4]].
+    + apply each_Forall. rewrite Forall_forall in *. intros [f ft] Hin. cbn [fst snd].
+      exists (export_type fixed3 ido (map_type ido ft)). split.
+      * rewrite H3. rewrite (mget_of_In fields f ft Hnd Hin). reflexivity.
+      * apply (IH (f,ft) Hin), (Hall (f,ft) Hin).
+    + intros f Hin. apply in_map_iff in Hin. destruct Hin as [[k sc] [<- Hin]]. cbn [fst].
+      assert (Hk : NoDup (map fst (s_props (export_type fixed3 ido (map_type ido (STuple op false fields)))))).
+      { cbn [map_type]. cbn [export_type fixed3 tables_with t_arms arms_with app find_str String.eqb Ascii.eqb Bool.eqb a_extra a_ctor a_format A ctor_base fst snd s_props].
+        apply mset_all_keys_NoDup. }
+      apply (mget_Some_iff_In _ _ _ Hk) in Hin. rewrite H3 in Hin.
+      destruct (mget k fields) as [ft|] eqn:E; [|discriminate]. apply mget_In in E.
+      apply in_map_iff. exists (k, ft). split; [reflexivity|exact E].
+Qed.
+
+(* HEADLINE (types): under any iteration order, every type of the application is a schema of the document, and that
+   schema presents the type *)
+Theorem export_complete_types : forall o a d, perm_oracle o -> wf_app a -> export3_with fixed3 o a = Ok d ->
+  forall n t, In (n,t) (a_types a) -> exists s, mget n (d_schemas d) = Some s /\ presents t s.
+Proof.
+  intros o a d Ho Hw He n t Hin.
+  rewrite (export_order_independent o ido a Ho id_perm_oracle Hw) in He.
+  pose proof Hw as [Htk [Htw _]].
+  unfold export3_with in He. rewrite generate3_eq, build_app_eq in He. cbn [wa_types wa_endpoints] in He.
+  match type of He with match ?F with _ => _ end = _ => destruct F as [m|]; [|discriminate] end.
+  inversion He; subst d. cbn [d_schemas].
+  exists (export_type fixed3 ido (map_type ido t)). split.
+  - rewrite (range_ido (a_types a)) by exact Htk.
+    rewrite range_ido by apply mset_all_keys_NoDup.
+    rewrite (mget_go_map (export_type fixed3 ido)) by apply mset_all_keys_NoDup.
+    rewrite (mget_go_map (map_type ido)) by exact Htk.
+    rewrite (mget_of_In _ _ _ Htk Hin). reflexivity.
+  - apply presents_ido. rewrite Forall_forall in Htw. exact (Htw (n,t) Hin).
+Qed.
+
+(* ------------------------------------------------------------------ endpoints: every endpoint is an operation *)
+Lemma opk_Some : forall k n, op_key k = Some n -> opk k = n.
+Proof. intros k n H. unfold opk. rewrite H. reflexivity. Qed.
+
+(* export succeeds (no panic) when every endpoint's method is one an OpenAPI path item has; every endpoint is then the
+   operation stored under its path and method, and that operation is the one export_operation builds from it *)
+Theorem export_complete_endpoints : forall o a, perm_oracle o -> wf_app a ->
+  (forall kv, In kv (a_endpoints a) -> op_key (e_key (snd kv)) <> None) ->
+  exists d, export3_with fixed3 o a = Ok d /\
+    forall n e, In (n,e) (a_endpoints a) ->
+      mget (opk (e_key e)) (d_ops d) = Some (export_operation fixed3 ido (snd (build_ep fixed3 ido a (n,e)))).
+Proof.
+  intros o a Ho Hw Hm.
+  rewrite (export_order_independent o ido a Ho id_perm_oracle Hw).
+  pose proof Hw as [Htk [Htw [Hek [Hew Hok]]]].
+  unfold export3_with. rewrite generate3_eq, build_app_eq. cbn [wa_types wa_endpoints].
+  rewrite (range_ido (a_endpoints a)) by exact Hek.
+  rewrite (range_ido (mset_all (map (build_ep fixed3 ido a) (a_endpoints a)) [])) by apply mset_all_keys_NoDup.
+  rewrite ops_fold_char.
+  assert (Hperm : Permutation (mset_all (map (build_ep fixed3 ido a) (a_endpoints a)) []) (map (build_ep fixed3 ido a) (a_endpoints a))).
+  { apply mset_all_Permutation. rewrite map_map. cbn [fst build_ep]. exact Hek. }
+  rewrite (forallb_perm has_key _ _ Hperm).
+  assert (Hall : forallb has_key (map (build_ep fixed3 ido a) (a_endpoints a)) = true).
+  { apply forallb_forall. intros x Hx. apply in_map_iff in Hx. destruct Hx as [kv [<- Hkv]].
+    unfold has_key, build_ep. cbn [snd w_key]. specialize (Hm kv Hkv). destruct (op_key (e_key (snd kv))); [reflexivity|congruence]. }
+  rewrite Hall. eexists. split; [reflexivity|]. cbn [d_ops].
+  intros n e Hin.
+  set (G := fun kv : name*wendpoint => (opk (w_key (snd kv)), export_operation fixed3 ido (snd kv))).
+  assert (HGk : NoDup (map fst (map G (map (build_ep fixed3 ido a) (a_endpoints a))))).
+  { rewrite !map_map. cbn [G fst snd build_ep w_key]. exact Hok. }
+  rewrite (mset_all_perm _ _ (Permutation_NoDup (Permutation_sym (Permutation_map fst (Permutation_map G Hperm))) HGk)
+                         (Permutation_map G Hperm)).
+  apply mget_mset_all_in; [exact HGk|].
+  apply in_map_iff. exists (build_ep fixed3 ido a (n,e)). split; [reflexivity|].
+  apply in_map_iff. exists (n,e). split; [reflexivity|exact Hin].
+Qed.
+
+(* ------------------------------------------------------------------ references are never unfolded *)
+(* A reference - also one that closes a cycle (self- or mutually recursive types) - is exported as a leaf that names its
+   target; MapType and exportType recurse on the syntax tree of ONE type only, so their recursion depth is bounded by
+   the depth of that tree whatever the reference graph looks like. *)
+Theorem export_ref_is_leaf : forall o op r,
+  export_type fixed3 o (map_type o (SRef op r)) = Sch (snd (get_ref_details r)) "" "" None [] [] [].
+Proof. reflexivity. Qed.
+
+Fixpoint tdepth (t:sty) : nat :=
+  match t with
+  | SSet _ e | SSeq _ e | SList _ e => S (tdepth e)
+  | SMap _ k v => S (Nat.max (tdepth k) (tdepth v))
+  | STuple _ _ fields => S ((fix mx (l:list (name*sty)) : nat := match l with [] => 0%nat | kv :: t => Nat.max (tdepth (snd kv)) (mx t) end) fields)
+  | _ => 1%nat
+  end.
+Fixpoint wdepth (t:wtype) : nat :=
+  match t with
+  | WT _ _ _ items _ props =>
+      S (Nat.max ((fix mx (l:list wtype) : nat := match l with [] => 0%nat | x :: t => Nat.max (wdepth x) (mx t) end) items)
+                 ((fix mx (l:list (name*wtype)) : nat := match l with [] => 0%nat | kv :: t => Nat.max (wdepth (snd kv)) (mx t) end) props))
+  end.
+Fixpoint sdepth (s:schema) : nat :=
+  match s with
+  | Sch _ _ _ items props _ _ =>
+      S (Nat.max (match items with Some i => sdepth i | None => 0%nat end)
+                 ((fix mx (l:list (name*schema)) : nat := match l with [] => 0%nat | kv :: t => Nat.max (sdepth (snd kv)) (mx t) end) props))
+  end.
+
+Definition maxof {A} (f:A -> nat) (l:list A) : nat := fold_right (fun x acc => Nat.max (f x) acc) 0%nat l.
+
+Lemma maxof_le {A} (f:A -> nat) : forall l b, (forall x, In x l -> (f x <= b)%nat) -> (maxof f l <= b)%nat.
+Proof.
+  induction l as [|x t IH]; intros b H; cbn [maxof fold_right]; [lia|].
+  apply Nat.max_lub; [apply H; left; reflexivity|apply IH; intros y Hy; apply H; right; exact Hy].
+Qed.
+
+Lemma maxof_ge {A} (f:A -> nat) : forall l x, In x l -> (f x <= maxof f l)%nat.
+Proof.
+  induction l as [|y t IH]; intros x H; [destruct H|]. cbn [maxof fold_right].
+  destruct H as [<-|H]; [lia|]. specialize (IH x H). unfold maxof in IH. lia.
+Qed.
+
+Lemma tdepth_fields : forall fields,
+  (fix mx (l:list (name*sty)) : nat := match l with [] => 0%nat | kv :: t => Nat.max (tdepth (snd kv)) (mx t) end) fields
+  = maxof (fun kv => tdepth (snd kv)) fields.
+Proof. induction fields as [|x t IH]; [reflexivity|]. cbn [maxof fold_right]. rewrite IH. reflexivity. Qed.
+Lemma wdepth_items : forall items,
+  (fix mx (l:list wtype) : nat := match l with [] => 0%nat | x :: t => Nat.max (wdepth x) (mx t) end) items = maxof wdepth items.
+Proof. induction items as [|x t IH]; [reflexivity|]. cbn [maxof fold_right]. rewrite IH. reflexivity. Qed.
+Lemma wdepth_props : forall props,
+  (fix mx (l:list (name*wtype)) : nat := match l with [] => 0%nat | kv :: t => Nat.max (wdepth (snd kv)) (mx t) end) props
+  = maxof (fun kv => wdepth (snd kv)) props.
+Proof. induction props as [|x t IH]; [reflexivity|]. cbn [maxof fold_right]. rewrite IH. reflexivity. Qed.
+Lemma sdepth_props : forall props,
+  (fix mx (l:list (name*schema)) : nat := match l with [] => 0%nat | kv :: t => Nat.max (sdepth (snd kv)) (mx t) end) props
+  = maxof (fun kv => sdepth (snd kv)) props.
+Proof. induction props as [|x t IH]; [reflexivity|]. cbn [maxof fold_right]. rewrite IH. reflexivity. Qed.
+
+Lemma map_type_depth : forall o t, (wdepth (map_type o t) <= tdepth t)%nat.
+Proof.
+  intro o. induction t as [| | op items|op e IH|op e IH|op e IH|op k v IHk IHv| |op mk fields IH] using sty_ind';
+    cbn [map_type wdepth tdepth]; try lia.
+  rewrite tdepth_fields, wdepth_props. apply le_n_S. apply Nat.max_lub; [lia|].
+  apply maxof_le. intros kv Hin. destruct (mset_all_In_inv _ _ _ Hin) as [E|[]].
+  apply entries_at_sub in E. apply in_map_iff in E. destruct E as [[k v] [<- E]]. cbn [snd].
+  rewrite Forall_forall in IH. etransitivity; [apply (IH (k,v) E)|]. apply (maxof_ge (fun kv => tdepth (snd kv)) fields (k,v) E).
+Qed.
+
+Lemma export_type_depth : forall tb o t, (sdepth (export_type tb o t) <= wdepth t)%nat.
+Proof.
+  intros tb o. induction t as [kind op ref items enum props IHi IHp] using wtype_ind'.
+  cbn [export_type wdepth]. rewrite wdepth_items, wdepth_props.
+  destruct (find_str kind (t_arms tb)) as [a|]; [|cbn [sdepth]; lia].
+  destruct (a_extra a); cbn [sdepth]; try lia.
+  - (* properties *) rewrite sdepth_props. apply le_n_S. apply Nat.max_lub; [lia|].
+    etransitivity; [|apply Nat.le_max_r]. apply maxof_le. intros kv Hin.
+    destruct (mset_all_In_inv _ _ _ Hin) as [E|[]]. apply in_map_iff in E. destruct E as [[k [b sc]] [<- E]]. cbn [fst snd].
+    apply range_sub in E. apply in_map_iff in E. destruct E as [[k' v] [Eq E]]. inversion Eq; subst.
+    rewrite Forall_forall in IHp. etransitivity; [apply (IHp (k,v) E)|]. apply (maxof_ge (fun kv => wdepth (snd kv)) props (k,v) E).
+  - (* items *) apply le_n_S. etransitivity; [|apply Nat.le_max_l].
+    destruct items as [|i rest]; [destruct r; cbn; lia|]. inversion IHi as [|? ? IH1 _]; subst.
+    cbn [maxof fold_right]. destruct r; [|destruct op|]; cbn; lia.
+Qed.
+
+(* HEADLINE (termination): the schema of a type is no deeper than the type's own syntax tree - for every table, every
+   iteration order, every reference graph; no fuel is needed because no reference is followed *)
+Theorem export_terminates : forall tb o t, (sdepth (export_type tb o (map_type o t)) <= tdepth t)%nat.
+Proof. intros. etransitivity; [apply export_type_depth|apply map_type_depth]. Qed.
